@@ -14,6 +14,7 @@ fn usage() -> i32 {
 
 fn main() {
     util::install_panic_hook();
+    cfbverif::lockwatch::install();
     let args: Vec<String> = std::env::args().skip(1).collect();
     let code = real_main(&args);
     std::process::exit(code);
